@@ -211,6 +211,26 @@ def sessionIterExecutes (p : PreparedInfo) (values : List RawVal) (cfg : StmtCon
   (none :: states.map some).map (fun st =>
     sessionExecute p values cfg stmtProfile sessionDefault conn .paged stmtPageSize st)
 
+/-- Manual paging through `Session::query_single_page` / `execute_single_page` (`session.rs:738-745, 917-930`): each call
+is one paged request carrying exactly the `PagingState` the CALLER passed; a caller that feeds every response's paging
+state into the next call (`states` = what the server answered, in order) produces this sequence. -/
+def sessionSinglePageQuery (text : Bytes) (cfg : StmtConfig) (stmtProfile : Option ExecProfile) (sessionDefault : ExecProfile)
+    (conn : ConnCtx) (stmtPageSize : Int32) (callerState : Option Bytes) : Req :=
+  sessionQuery text cfg stmtProfile sessionDefault conn .paged stmtPageSize callerState
+
+def sessionSinglePageExecute (p : PreparedInfo) (values : List RawVal) (cfg : StmtConfig) (stmtProfile : Option ExecProfile)
+    (sessionDefault : ExecProfile) (conn : ConnCtx) (stmtPageSize : Int32) (callerState : Option Bytes) : Req :=
+  sessionExecute p values cfg stmtProfile sessionDefault conn .paged stmtPageSize callerState
+
+def sessionManualQueryPages (text : Bytes) (cfg : StmtConfig) (stmtProfile : Option ExecProfile)
+    (sessionDefault : ExecProfile) (conn : ConnCtx) (stmtPageSize : Int32) (states : List Bytes) : List Req :=
+  (none :: states.map some).map (sessionSinglePageQuery text cfg stmtProfile sessionDefault conn stmtPageSize)
+
+def sessionManualExecutePages (p : PreparedInfo) (values : List RawVal) (cfg : StmtConfig)
+    (stmtProfile : Option ExecProfile) (sessionDefault : ExecProfile) (conn : ConnCtx) (stmtPageSize : Int32)
+    (states : List Bytes) : List Req :=
+  (none :: states.map some).map (sessionSinglePageExecute p values cfg stmtProfile sessionDefault conn stmtPageSize)
+
 /-! ### Statement → PreparedStatement: what a prepared handle inherits
 
 `RawPreparedStatement::into_prepared_statement` (`statement/prepared.rs:86-108`, used by `Connection::prepare` and
